@@ -8,6 +8,14 @@ PY = '/venv/bin/python'
 
 MC = 'model_checking'
 CHECKS = {
+    'C13': (MC, 'explicit-state BFS over clock moves (between and inside steps), events and execute_once on the real Interpreter, lock-step with a reference time model',
+            'BFS (depth 9-12) over clock advances, clock moves made by a listener or an action in the middle of a step, events and execute_once on two charts using after/idle/time in guards, actions and contracts; the reference entry/idle stamps predict every predicate value, the fired transitions, MacroStep.time, the time seen by code and by the step-started meta-event; SynchronizedClock == Interpreter.time after every operation.',
+            'Integer times; predicates with d<=3 so ages are capped at 4 in the canonical state; idle() inside a transition\'s own post-side contracts is not constrained.',
+            '§4 C13'),
+    'C16': (MC, 'explicit-state BFS over sequences of editing operations on the real Statechart against a plain-dict reference editor',
+            'All sequences (depth 2-3) of add/remove/rename/move state and add/remove/rotate transition with valid and invalid arguments from three initial charts, deduplicated by canonical structure; outcome, post-structure, tree/transition/initial/memory soundness, validate() and atomicity of failed edits are compared with a reference editor written from the docstrings.',
+            'Trusts the reference editor (100 lines); history state as root is outside the alphabet (decided by C12).',
+            '§4 C16'),
     'C05': (MC, 'explicit-state BFS over interleavings of queue/send/clock/execute_once on the real Interpreter, lock-step with a reference model of the two event queues',
             'All interleavings (depth 6-8, <=3 entries per queue) of external/internal queue() with delays 0-2, clock advances and execute_once (with and without an enabled eventless transition) on three sink charts whose fragments send immediate and delayed events; each macro step must consume exactly the event the reference queues predict (identity by serial); at every state a drain proves exactly-once consumption.',
             'Trusts the 60-line reference queue model; overdue entries are treated as equivalent up to their order; exhaustive only up to the stated depth/cap because the state space is infinite.',
